@@ -703,7 +703,7 @@ func ruleRecordDestination(c *Ctx, rule, pkg string) {
 			if fv == nil || fv.Name() != "MessageLogDirectory" {
 				return
 			}
-			empty := onEveryPath(st.Block(), func(f EdgeFact) bool {
+			emptyFact := func(f EdgeFact) bool {
 				bo, ok := f.Cond.(*ssa.BinOp)
 				if !ok || !((bo.Op == token.EQL && f.Val) || (bo.Op == token.NEQ && !f.Val)) {
 					return false
@@ -721,7 +721,40 @@ func ruleRecordDestination(c *Ctx, rule, pkg string) {
 					return f2 == fv
 				}
 				return false
-			})
+			}
+			empty := onEveryPath(st.Block(), emptyFact)
+			if !empty {
+				// `dir = defaulted(dir)`: the stored value is the setting itself, or a default chosen on
+				// the edge of the emptiness test
+				var same func(v ssa.Value, depth int) bool
+				same = func(v ssa.Value, depth int) bool {
+					if depth > 4 {
+						return false
+					}
+					if f2, _ := loadedField(v); f2 == fv {
+						return true
+					}
+					phi, ok := v.(*ssa.Phi)
+					if !ok {
+						return false
+					}
+					for i, e := range phi.Edges {
+						if same(e, depth+1) {
+							continue
+						}
+						pred := phi.Block().Preds[i]
+						if onEveryPath(pred, emptyFact) {
+							continue
+						}
+						if ifi, ok := lastInstr(pred).(*ssa.If); ok && len(pred.Succs) == 2 && emptyFact(EdgeFact{ifi.Cond, pred.Succs[0] == phi.Block(), pred}) {
+							continue
+						}
+						return false
+					}
+					return true
+				}
+				empty = same(st.Val, 0)
+			}
 			c.Check(empty, rule, "record-directory("+P.FnKey(fn)+")", st.Pos(), "the configured record directory is given a default only when it is empty",
 				"the configured record directory is replaced although it is not empty: the record does not appear in the configured directory")
 		})
